@@ -13,7 +13,8 @@
        current_time = time.time();  key = (args, frozenset(kwargs.items()))
        expired_keys = [k for k,(ts,_) in cache.items() if current_time - ts > valid]
        for k in expired_keys: del cache[k]
-       if key in cache: cache.move_to_end(key); return cache[key][1]
+       entry = cache.get(key)
+       if entry is not None and current_time - entry[0] <= valid: cache.move_to_end(key); return entry[1]
        result = func(..); cache[key] = (current_time, result)
        if len(cache) > max_size: cache.popitem(last=False)
        return result
@@ -126,17 +127,25 @@ Definition lru_remove (k : K) (it : items) : items :=
 Definition lru_trim (max_size : nat) (it : items) : items :=
   if Nat.ltb max_size (length it) then tl it else it.
 
+(* cache[key] = v : an existing key keeps its position, a new key goes to the end *)
+Definition lru_set (k : K) (v : Z * R) (it : items) : items :=
+  if existsb (fun e => keqb (fst e) k) it
+  then map (fun e => if keqb (fst e) k then (fst e, v) else e) it
+  else it ++ [(k, v)].
+
 Definition lru_call (max_size : nat) (valid : option Z) (s : lru_st) (a : A) : lru_st * outcome :=
   let now := l_now s in
   let k := key a in
   let live := lru_live valid now (l_items s) in           (* expiry sweep *)
-  match lru_find k live with
-  | Some e =>                                              (* move_to_end; return cache[key][1] *)
-      (mkL (lru_remove k live ++ [e]) now (l_calls s), mkO a now true (snd (snd e)))
-  | None =>
-      let r := f a (l_calls s) in
-      (mkL (lru_trim max_size (live ++ [(k, (now, r))])) now (N.succ (l_calls s)),
-       mkO a now false r)
+  let miss :=                                              (* func(..); cache[key] = ..; trim *)
+    let r := f a (l_calls s) in
+    (mkL (lru_trim max_size (lru_set k (now, r) live)) now (N.succ (l_calls s)), mkO a now false r) in
+  match lru_find k live with                               (* entry = cache.get(key) *)
+  | Some e =>
+      if fresh valid now (fst (snd e))                     (* age of the entry checked on the hit path *)
+      then (mkL (lru_remove k live ++ [e]) now (l_calls s), mkO a now true (snd (snd e)))
+      else miss                                            (* stale entry: recompute and overwrite *)
+  | None => miss
   end.
 
 Definition lru_tick (s : lru_st) (d : N) : lru_st :=
@@ -267,7 +276,7 @@ Arguments sic_run {A K R}. Arguments last_miss {A R}. Arguments is_miss {A R}. A
 Arguments sic_expect {A K R}. Arguments sic_spec {A K R}.
 Arguments mkL {K R}. Arguments l_items {K R}. Arguments l_now {K R}. Arguments l_calls {K R}.
 Arguments lru_init {K R}. Arguments lru_live {K R}. Arguments lru_find {K R}. Arguments lru_remove {K R}.
-Arguments lru_trim {K R}. Arguments lru_call {A K R}. Arguments lru_tick {K R}. Arguments lru_run {A K R}.
+Arguments lru_trim {K R}. Arguments lru_set {K R}. Arguments lru_call {A K R}. Arguments lru_tick {K R}. Arguments lru_run {A K R}.
 Arguments last_use_from {A K R}. Arguments last_use {A K R}. Arguments last_miss_for {A K R}.
 Arguments PTime {A R}. Arguments PRead {A R}. Arguments PCmp {A R}. Arguments PRetHit {A R}.
 Arguments PCall {A R}. Arguments PWrite {A R}. Arguments PRetMiss {A R}. Arguments PDone {A R}.
@@ -360,6 +369,8 @@ Arguments otstep {P W R}. Arguments ocstep {P W R}. Arguments ocrun {P W R}.
 Arguments old_init {P W R}. Arguments oreturned {P W R}.
 
 (* ------------------------------------------------------------------ *)
+(* lru_cache_with_expiry before commit 76447ff (finding F-C19-2), concurrent: the hit path is
+   if key in cache: cache.move_to_end(key); return cache[key][1].  Kept as documentation. *)
 (* lru_cache_with_expiry, concurrent.  Steps are finer than source lines *)
 (* (the comprehension advances one item per step), so every line-level   *)
 (* schedule is one of these schedules.  CPython's OrderedDict iterator    *)
@@ -367,6 +378,7 @@ Arguments old_init {P W R}. Arguments oreturned {P W R}.
 (* del / move_to_end / [] on a missing key and popitem on an empty dict   *)
 (* raise KeyError.  Exceptions end the call ([LDone None]).               *)
 (* ------------------------------------------------------------------ *)
+Module LruOld.
 Section LruConc.
 Variables A K R : Type.
 Variable key : A -> K.
@@ -476,11 +488,133 @@ Arguments LCall {K R}. Arguments LStore {K R}. Arguments LLen {K R}. Arguments L
 Arguments bump {A K R}.
 Arguments ltstep {A K R}. Arguments lcstep {A K R}. Arguments lcrun {A K R}. Arguments lreturned {A K R}.
 Arguments has_key {K R}. Arguments set_item {K R}.
+Definition lru_old_model_shape : list N := [0; 1; 3; 1; 3; 1; 2; 3; 1; 3]%N.
+End LruOld.
+
+(* ------------------------------------------------------------------ *)
+(* lru_cache_with_expiry as it is now, concurrent.  Steps are finer than *)
+(* source lines (the comprehension advances one item per step), so every *)
+(* line-level schedule is one of these schedules.  CPython's OrderedDict  *)
+(* iterator raises RuntimeError when the dict changed since the iterator  *)
+(* was made; del / move_to_end on a missing key and popitem on an empty   *)
+(* dict raise KeyError.  Exceptions end the call ([LDone _ _ None]).      *)
+(* ------------------------------------------------------------------ *)
+Section LruConc.
+Variables A K R : Type.
+Variable key : A -> K.
+Variable keqb : K -> K -> bool.
+Variable f : A -> N -> R.
+
+Notation items := (list (K * (Z * R))).
+(* version: bumped by every mutation of the OrderedDict (od_state); ls_log is a ghost log of the
+   invocations made so far: (arguments, clock value when f ran) *)
+Record lsh := mkLS { ls_items : items; ls_ver : N; ls_now : Z; ls_calls : N; ls_log : list (A * Z) }.
+
+Inductive lpc :=
+| LTime                                            (* current_time = time.time() *)
+| LKey (now : Z)                                   (* key = (args, frozenset(kwargs.items())) *)
+| LIterNew (now : Z)                               (* iter(cache.items()) *)
+| LIter (now : Z) (ver : N) (pos : nat) (acc : list K)   (* one next() of that iterator *)
+| LDel (now : Z) (ks : list K)                     (* for k in expired_keys: del cache[k] *)
+| LGetE (now : Z)                                  (* entry = cache.get(key) *)
+| LCond (now : Z) (e : option (Z * R))             (* if entry is not None and current_time - entry[0] <= valid *)
+| LMove (now : Z) (r : R)                          (* cache.move_to_end(key) *)
+| LRetHit (now : Z) (r : R)                        (* return entry[1] *)
+| LCall (now : Z)                                  (* result = func(..) *)
+| LStore (now : Z) (r : R)                         (* cache[key] = (current_time, result) *)
+| LLen (now : Z) (r : R)                           (* if len(cache) > max_size *)
+| LPop (now : Z) (r : R)                           (* cache.popitem(last=False) *)
+| LRet (now : Z) (r : R)                           (* return result *)
+| LDone (now : Z) (hit : bool) (r : option R).     (* Some r = returned r, None = raised *)
+
+Record lthread := mkLT { lt_arg : A; lt_pc : lpc }.
+
+Definition has_key (k : K) (it : items) : bool := existsb (fun e => keqb (fst e) k) it.
+Definition set_item (k : K) (v : Z * R) (it : items) : items :=
+  if has_key k it then map (fun e => if keqb (fst e) k then (fst e, v) else e) it
+  else it ++ [(k, v)].
+Definition bump (sh : lsh) (it : items) : lsh := mkLS it (N.succ (ls_ver sh)) (ls_now sh) (ls_calls sh) (ls_log sh).
+
+Definition ltstep (max_size : nat) (valid : option Z) (sh : lsh) (t : lthread) : lsh * lthread :=
+  let a := lt_arg t in
+  let k := key a in
+  let go p := (sh, mkLT a p) in
+  match lt_pc t with
+  | LTime => go (LKey (ls_now sh))
+  | LKey now => go (LIterNew now)
+  | LIterNew now => go (LIter now (ls_ver sh) 0 [])
+  | LIter now ver pos acc =>
+      if negb (N.eqb ver (ls_ver sh)) then go (LDone now false None)  (* mutated during iteration *)
+      else match nth_error (ls_items sh) pos with
+           | Some e => go (LIter now ver (S pos)
+                                 (if fresh valid now (fst (snd e)) then acc else acc ++ [fst e]))
+           | None => go (LDel now acc)
+           end
+  | LDel now ks =>
+      match ks with
+      | [] => go (LGetE now)
+      | k' :: rest =>
+          if has_key k' (ls_items sh)
+          then (bump sh (filter (fun e => negb (keqb (fst e) k')) (ls_items sh)), mkLT a (LDel now rest))
+          else go (LDone now false None)                              (* KeyError *)
+      end
+  | LGetE now => go (LCond now (option_map snd (find (fun e => keqb (fst e) k) (ls_items sh))))
+  | LCond now e =>
+      match e with
+      | Some (ts, r) => if fresh valid now ts then go (LMove now r) else go (LCall now)
+      | None => go (LCall now)
+      end
+  | LMove now r =>
+      match find (fun e => keqb (fst e) k) (ls_items sh) with
+      | Some e => (bump sh (filter (fun e => negb (keqb (fst e) k)) (ls_items sh) ++ [e]), mkLT a (LRetHit now r))
+      | None => go (LDone now true None)                              (* KeyError *)
+      end
+  | LRetHit now r => go (LDone now true (Some r))
+  | LCall now => (mkLS (ls_items sh) (ls_ver sh) (ls_now sh) (N.succ (ls_calls sh)) (ls_log sh ++ [(a, ls_now sh)]),
+                  mkLT a (LStore now (f a (ls_calls sh))))
+  | LStore now r => (bump sh (set_item k (now, r) (ls_items sh)), mkLT a (LLen now r))
+  | LLen now r => if Nat.ltb max_size (length (ls_items sh)) then go (LPop now r) else go (LRet now r)
+  | LPop now r =>
+      match ls_items sh with
+      | [] => go (LDone now false None)
+      | _ :: rest => (bump sh rest, mkLT a (LRet now r))
+      end
+  | LRet now r => go (LDone now false (Some r))
+  | LDone _ _ _ => (sh, t)
+  end.
+
+Definition lcstep (max_size : nat) (valid : option Z) (st : lsh * list lthread) (e : sched)
+  : lsh * list lthread :=
+  match e with
+  | STick d => (mkLS (ls_items (fst st)) (ls_ver (fst st)) (ls_now (fst st) + Z.of_N d) (ls_calls (fst st)) (ls_log (fst st)), snd st)
+  | SStep i =>
+      match nth_error (snd st) i with
+      | Some t => let '(sh', t') := ltstep max_size valid (fst st) t in (sh', upd (snd st) i t')
+      | None => st
+      end
+  end.
+
+Definition lcrun (max_size : nat) (valid : option Z) (sch : list sched) (st : lsh * list lthread) :=
+  fold_left (lcstep max_size valid) sch st.
+
+Definition lreturned (t : lthread) : option R :=
+  match lt_pc t with LDone _ _ (Some r) => Some r | _ => None end.
+End LruConc.
+
+Arguments mkLS {A K R}. Arguments ls_items {A K R}. Arguments ls_ver {A K R}. Arguments ls_now {A K R}. Arguments ls_calls {A K R}.
+Arguments ls_log {A K R}.
+Arguments mkLT {A K R}. Arguments lt_arg {A K R}. Arguments lt_pc {A K R}.
+Arguments LTime {K R}. Arguments LDone {K R}. Arguments LKey {K R}. Arguments LIterNew {K R}.
+Arguments LIter {K R}. Arguments LDel {K R}. Arguments LGetE {K R}. Arguments LCond {K R}. Arguments LMove {K R}.
+Arguments LRetHit {K R}. Arguments LCall {K R}. Arguments LStore {K R}. Arguments LLen {K R}. Arguments LPop {K R}.
+Arguments LRet {K R}. Arguments bump {A K R}.
+Arguments ltstep {A K R}. Arguments lcstep {A K R}. Arguments lcrun {A K R}. Arguments lreturned {A K R}.
+Arguments has_key {K R}. Arguments set_item {K R}.
 
 (* kinds of the shared-access lines of the LRU wrapper in source order (0 clock, 1 cache
-   read, 2 call of f, 3 cache write): items() sweep, del, key in cache, move_to_end,
-   cache[key], func, cache[key] = .., len(cache), popitem *)
-Definition lru_model_shape : list N := [0; 1; 3; 1; 3; 1; 2; 3; 1; 3]%N.
+   read, 2 call of f, 3 cache write): items() sweep, del, cache.get(key), move_to_end,
+   func, cache[key] = .., len(cache), popitem *)
+Definition lru_model_shape : list N := [0; 1; 3; 1; 3; 2; 3; 1; 3]%N.
 
 (* ------------------------------------------------------------------ *)
 (* concrete instance evaluated by the correspondence                    *)
